@@ -134,6 +134,23 @@ def make_cases(chk, rng, ib, kmac, kenc, accept):
         add('two-bibs-good', [biba, S.craft_bib(chk, ib, kmac, [1], n2, scope=sc)], False, [(n1, ext[0], 'ok'), (n2, 1, 'ok')], d='D15')
         add('mixed-exception-and-failure', [rewrite_asb(biba, lambda c: c.__setitem__('targets', [n2 + 7])), bibb], True,
             [(n2, 1, 'fail')], d='D16')
+    # --- several targets in one block: the failing target at every position, the others intact
+    if len(ext) >= 2:
+        for order_name, T in (('asc', [1, ext[0], ext[1]]), ('mixed', [ext[1], 1, ext[0]])):
+            mb = S.craft_bib(chk, ib, kmac, T, n1, scope=sc)
+            mc, menc = S.craft_bcb(chk, ib, kenc, T, n1, [iv() for _ in T], scope=sc)
+            mplain = [(n1, t, [b for b in ib.blocks if b['num'] == t][0]['btsd']) for t in T]
+            add('multi-bib-valid-%s' % order_name, [mb], False, [(n1, t, 'ok') for t in T])
+            add('multi-bcb-valid-%s' % order_name, [mc], False, [(n1, t, 'ok') for t in T], base=menc, plain=mplain,
+                payload=pay['btsd'] if accept else None)
+            for pos, bad in enumerate(T):
+                where = ('first', 'middle', 'last')[pos]
+                orc = [(n1, t, 'fail' if t == bad else 'ok') for t in T]
+                add('multi-bib-%s-altered-%s' % (order_name, where), [mb], True, orc, base=S.alter_btsd(ib.blocks, bad))
+                add('multi-bcb-%s-altered-%s' % (order_name, where), [mc], True, orc, base=S.alter_btsd(menc, bad), plain=mplain)
+                add('multi-bib-%s-bad-tag-%s' % (order_name, where),
+                    [rewrite_asb(mb, lambda c, pos=pos: c['results'].__setitem__(pos, [(17, flip_tag(c['results'][pos][0][1]))]))],
+                    True, orc)
     # --- BCB + BIB: the BIB is made over the plaintext, then the payload is encrypted
     bibp = S.craft_bib(chk, ib, kmac, [1], n1, scope=sc)
     bcb2, enc2 = S.craft_bcb(chk, ib, kenc, [1], n2, [iv()], scope=sc)
@@ -251,7 +268,8 @@ def judge(chk, rec, ans):
             if not accept and len(secs) != len([b for b in case.blocks if b['type'] in (11, 12)]):
                 chk.violation('C12:block-removed-without-acceptance:%s' % case.kind, 'security block removed although acceptance is off', replay)
             others = [(b[0], b[1], b[2].hex()) for b in out.delivered_blocks if b[0] not in (11, 12) and b[1] != 1]
-            want = [(b['type'], b['num'], b['btsd']) for b in case.blocks if b['type'] not in (11, 12) and b['num'] != 1]
+            dec = {t: p for (_s, t, p) in case.plain} if accept else {}
+            want = [(b['type'], b['num'], dec.get(b['num'], b['btsd'])) for b in case.blocks if b['type'] not in (11, 12) and b['num'] != 1]
             if others != want:
                 chk.violation('C12:delivered-bundle-changed:%s' % case.kind, 'non-security blocks changed', replay)
             chk.count('pass-ok')
@@ -279,7 +297,7 @@ def run(chk):
     keys[b'mac'] = SymmetricKey(k=kmac, optional_params={KpAlg: HMAC256, KpKid: b'mac', KpKeyOps: [MacCreateOp, MacVerifyOp]})
     keys[b'enc'] = SymmetricKey(k=kenc, optional_params={KpAlg: A256GCM, KpKid: b'enc', KpKeyOps: [EncryptOp, DecryptOp]})
     for bi in range(nb):
-        ib, _payload = S.plain_bundle(rng, chk.tier, payload=None if bi else b'attack at dawn', extra=1 + (bi % 2))
+        ib, _payload = S.plain_bundle(rng, chk.tier, payload=None if bi else b'attack at dawn', extra=2 - (bi % 2))
         if not [b for b in ib.blocks if b['type'] == 1][0]['btsd']:
             ib, _payload = S.plain_bundle(rng, chk.tier, payload=b'\x00', extra=1)
         for accept in (False, True):
